@@ -20,7 +20,7 @@ ID = "C12"
 LEVEL = "fault_enumeration"
 BATCH = 10
 PROBES_EXPECTED = ['probe:changed-between-completed-syncs', 'probe:crash-history', 'probe:fault-free-history', 'probe:rerun-on-same-config', 'probe:tree-version-switch', 'probe:rename-table', 'crash@touch', 'crash@write', 'crash@write/torn', 'crash@replace', 'crash@create', 'crash@makedirs']
-TIERS = {"quick": {"runs": 2000, "wall": 50}, "thorough": {"runs": 80000, "wall": 840}}
+TIERS = {"quick": {"runs": 2000, "wall": 40}, "thorough": {"runs": 80000, "wall": 840}}
 RULE = ("each run draws a program (optionally an evolved second version and a rename table), a history of 2-6 configurations with a "
         "sync after each into one or two dependency directories (a fresh node per sync, as in a build; in fault-free histories optionally one long-lived instance), and optionally one crashed sync whose every mutating FS operation is a "
         "crash point (writes torn at seeded prefixes incl. 0 bytes), followed by a rerun on the same or on further configurations; "
